@@ -28,7 +28,7 @@ ASSUMPTIONS = [
     'EAGAIN == EWOULDBLOCK on this platform',
 ]
 REQUIRED = ['endpoint_server', 'endpoint_client', 'endpoint_file', 'partial_send_requeued', 'accept_zero', 'eagain_injected', 'eintr_injected',
-            'enobufs_injected', 'fatal_injected', 'close_while_buffered', 'close_after_drain', 'two_connections_interleaved', 'empty_payload',
+            'enobufs_injected', 'fatal_injected', 'close_while_buffered', 'close_after_drain', 'two_connections_interleaved', 'two_clients_on_one_channel', 'empty_payload',
             'write_after_close_request', 'server_wide_close', 'text_payload_multibyte', 'close_requested_by_peer_eof', 'client_reconnected_after_end', 'client_reconnected_after_unsent_backlog']
 REQUIRED_OBLIGATIONS = ['PREFIX', 'ALL_DELIVERED', 'CLOSE_WAITS_FOR_BUFFER', 'NO_SEND_AFTER_CLOSE', 'FATAL_SIGNALLED', 'CLOSE_HAPPENS']
 WORKER_TIMEOUT = {'quick': 300, 'thorough': 1800}
@@ -216,11 +216,19 @@ def make_world(endpoint, scripts):
         W['later_scripts'] = later
         cli = ScriptedTCPClient(s, channel='cli').register(root)
         settle()
+        csocks = [s]
+        if len(scripts) > 1:
+            # a second client on the same channel (a "tee": every write event goes to both connections, and each of them sees the
+            # other's readiness events)
+            s2 = ScriptedSocket(scripts[1], peer=('10.0.0.10', 5556))
+            ScriptedTCPClient(s2, channel='cli').register(root)
+            csocks.append(s2)
+            settle()
         root.fire(nev.connect('10.0.0.1', 80), 'cli')
         settle()
         W.update(write=lambda i, d: (root.fire(nev.write(d), 'cli'), settle()),
                  close=lambda i: (root.fire(nev.close(), 'cli'), settle()),
-                 read=lambda i: (root.fire(poll_read(s), poller.getTarget(s)), settle()), socks=[s], comp=cli, chan='cli')
+                 read=lambda i: (root.fire(poll_read(csocks[i]), poller.getTarget(csocks[i])), settle()), socks=csocks, comp=cli, chan='cli')
     else:
         import circuits.io.file as fmod
         from circuits.io import File
@@ -263,12 +271,13 @@ def make_world(endpoint, scripts):
 
 def run_case(case):
     endpoint = case['endpoint']
-    nconn = 2 if endpoint == 'server' and case.get('two') else 1
+    tee = endpoint == 'client' and bool(case.get('tee'))
+    nconn = 2 if (endpoint == 'server' and case.get('two')) or tee else 1
     scripts = [Script(case['script'])] + [Script(case.get('script2', [])) for _ in range(nconn - 1)]
     payloads = [list(PAYLOAD_SETS[case['payloads']]) for _ in range(nconn)]
     if case.get('big'):
         payloads[0] = [b'B' * (1 << 20), b'tail']
-    if nconn == 2:
+    if nconn == 2 and not tee:
         payloads[1] = [bytes(reversed(p)) + b'#' for p in payloads[1]]
     W = make_world(endpoint, scripts)
     problems = []
@@ -309,7 +318,7 @@ def run_case(case):
     try:
         steps = []
         for k in range(max(len(p) for p in payloads)):
-            for i in range(nconn):
+            for i in range(1 if tee else nconn):
                 if k < len(payloads[i]):
                     steps.append((i, payloads[i][k]))
         ok = True
@@ -336,6 +345,8 @@ def run_case(case):
                 written[i] += data.encode(FILE_ENCODING)
             else:
                 written[i] += data
+            if tee and not scripts[1].closed:
+                written[1] += data          # the write event reaches both clients of the channel
             if case.get('pump_between', True) and n % 2 == 1:
                 W['pump']()
             ok = check_prefix('write %d' % n)
@@ -362,7 +373,9 @@ def run_case(case):
                     break
                 if n == 0:
                     break
-        if nconn == 2:
+        if tee:
+            marks.add('two_clients_on_one_channel')
+        elif nconn == 2:
             marks.add('two_connections_interleaved')
         for i in range(nconn):
             sc = scripts[i]
@@ -515,6 +528,11 @@ def corpus():
             for close_at in (None, 1, 2):
                 cs.append({'endpoint': endpoint, 'payloads': 'm', 'script': script, 'close_at': close_at, 'close_by': 'eof', 'pump_between': False})
     cs.append({'endpoint': 'server', 'two': True, 'payloads': 's', 'script': ['P', 'EAGAIN'], 'script2': ['Z', 'P'], 'close_at': 3, 'close_by': 'eof'})
+    # two clients on one channel: one peer slow, the other one taking everything at once (and the other way round, and both slow)
+    for s1, s2 in ((['P', 'EAGAIN', 'P', 'Z', 'P'], []), ([], ['P', 'P', 'EAGAIN', 'P']), (['P', 'EAGAIN', 'P'], ['Z', 'P', 'P']), (['P', 'EPIPE'], ['P', 'P'])):
+        for close_at in (None, 1, 2):
+            for pb in (True, False):
+                cs.append({'endpoint': 'client', 'tee': True, 'payloads': 'm', 'script': s1, 'script2': s2, 'close_at': close_at, 'pump_between': pb})
     for s1, s2 in ((['P', 'EAGAIN'], ['EINTR', 'P', 'Z']), (['EPIPE'], ['P', 'P']), (['ENOBUFS', 'P'], ['ECONNRESET'])):
         for close_at in (None, 1, 3):
             cs.append({'endpoint': 'server', 'two': True, 'payloads': 's', 'script': s1, 'script2': s2, 'close_at': close_at})
@@ -541,6 +559,9 @@ def gen_case(rng):
     if case['endpoint'] == 'client' and rng.random() < 0.5:
         case['reconnect'] = True
         case['script2'] = [rng.choice(OUTCOMES[:6]) for _ in range(rng.randint(0, 5))]
+    elif case['endpoint'] == 'client' and rng.random() < 0.5:
+        case['tee'] = True
+        case['script2'] = [rng.choice(OUTCOMES[:6]) for _ in range(rng.randint(0, 6))]
     if case['endpoint'] == 'server' and rng.random() < 0.4:
         case['two'] = True
         case['script2'] = [rng.choice(OUTCOMES[:6]) for _ in range(rng.randint(0, 6))]
